@@ -122,6 +122,12 @@ def run(tier):
         b = p["src"].encode("latin-1")
         add(b, "semantic-error")
         forced[b] = [("5.6", True), ("5.0", True), ("5.3", False), ("7.4", True)]
+    # (d') every parameter shape in every kind of signature (the grammars accept more than PHP compiles)
+    for p in inputs.signature_programs():
+        b = p["src"].encode("latin-1")
+        add(b, "signature")
+        forced.setdefault(b, []).append((p["ver"], False))
+        forced[b].append((p["ver"], True))
     # (e) byte sweep
     nsweep = 0
     for b, origin in sweep_inputs(tier):
